@@ -715,6 +715,10 @@ func TestC12CnameGraph(t *testing.T) {
 			cur = nx
 		}
 		swapQType := rapid.IntRange(0, 3).Draw(t, "echoed_question_of_other_type") == 0
+		addMask := 0
+		if rapid.IntRange(0, 2).Draw(t, "records_in_additional_section") == 0 {
+			addMask = 1 + uniform(t, "additional_mask", 1<<16-1)
+		}
 		c12Srv.SetRespond(func(q dnsfx.Query) (int, []byte) {
 			sub := func(s string) string {
 				if s == "$Q" {
@@ -745,7 +749,21 @@ func TestC12CnameGraph(t *testing.T) {
 				extra := dnsfx.AnsRec{Owner: q.Name, Type: eq.Type, Rec: dnsfx.ZRec{TTL: 60, IP: net.IP{192, 0, 2, 99}, HTTPS: dns.HTTPS{Priority: 1, ALPN: []string{"h2"}}}}
 				ans = append([]dnsfx.AnsRec{extra}, ans...)
 			}
-			pkt, err := dnsfx.Packet(eq, 0, ans)
+			// some of the records travel in the additional section (a server may volunteer the
+			// addresses and HTTPS records it expects to be asked for next, RFC 9460 section 4.2)
+			var add []dnsfx.AnsRec
+			if addMask != 0 {
+				var keep []dnsfx.AnsRec
+				for i, a := range ans {
+					if addMask>>(i%16)&1 == 1 {
+						add = append(add, a)
+					} else {
+						keep = append(keep, a)
+					}
+				}
+				ans = keep
+			}
+			pkt, err := dnsfx.PacketAdd(eq, 0, ans, add)
 			if err != nil {
 				pkt, _ = dnsfx.Packet(q, 2, nil)
 			}
